@@ -57,7 +57,8 @@ def run(out, tier, seed, proof):
             out.violation("a valid catalog name is rejected", {"name": n, "impl": a})
     # entry locations
     cats = ["default", "c-1", "C_2", "c-1x"]
-    enames = ["x", "X", "x/y", "../z", "é", "", "a" * 500, "x.pkl", "x-node", " "]
+    enames = ["x", "X", "x/y", "../z", "é", "", "a" * 500, "x.pkl", "x-node", " ",
+              "caf\u00e9", "cafe\u0301", "\u00c5", "\u212b", "\u2126", "\u03a9", "\ufb01", "fi", "x ", "x\n"]      # canonically equivalent, different strings
     entries = [(c, e) for c in cats for e in enames]
     r = run_impl_worker("impl_catalog.py", {"entries": entries})["entries"]
     seen = {}
@@ -81,17 +82,20 @@ def run(out, tier, seed, proof):
     items2 = [(ci, en, swaps.get(v, v)) for ci, en, v in items]
     rt = run_impl_worker("impl_catalog.py", {"roundtrip": {"catalogs": ["first", "second-2"], "items": items, "items2": items2}}, timeout=600)["roundtrip"]
     out.coverage["roundtrip_runs"] = rt["runs"]
-    for j, ((ci, en, v), got) in enumerate(zip(items, rt["outs"])):
-        out.case(["roundtrip", ci, en, v])
-        want = repr(eval(v))  # noqa: S307
-        if got != want:
-            out.violation("a consumer did not receive the value returned into the catalog entry", {"item": (ci, en, v), "received": got, "runs": rt["runs"]})
-    for j, ((ci, en, v), got) in enumerate(zip(items2, rt.get("outs2", []))):
-        out.case(["roundtrip2", ci, en, v])
-        want = repr(eval(v))  # noqa: S307
-        if got != want:
-            out.violation("after the producer changed its return value a consumer still received the old one",
-                          {"item": (ci, en, v), "received": got, "expected": want, "runs": rt.get("runs2")})
+    # (every entry has two consumers, each of which works on the received value in place after writing it down)
+    for key in ("outs", "outsd"):
+        for j, ((ci, en, v), got) in enumerate(zip(items, rt[key])):
+            out.case(["roundtrip", key, ci, en, v])
+            want = repr(eval(v))  # noqa: S307
+            if got != want:
+                out.violation("a consumer did not receive the value returned into the catalog entry", {"item": (ci, en, v), "received": got, "consumer": key, "runs": rt["runs"]})
+    for key in ("outs2", "outsd2"):
+        for j, ((ci, en, v), got) in enumerate(zip(items2, rt.get(key, []))):
+            out.case(["roundtrip2", key, ci, en, v])
+            want = repr(eval(v))  # noqa: S307
+            if got != want:
+                out.violation("after the producer changed its return value a consumer still received the old one",
+                              {"item": (ci, en, v), "received": got, "expected": want, "consumer": key, "runs": rt.get("runs2")})
     if len(rt["runs"]) == 2 and rt["runs"][1].get("exit") == 0:
         second = dict(rt["runs"][1]["out"])
         ran = [n for n, o in second.items() if o == "SUCCESS"]
